@@ -661,6 +661,46 @@ Proof.
   split; intros H p; rewrite (H p); split; intros [s E]; exists s; rewrite apply2_ev in *; auto.
 Qed.
 
+(* ---- GetPaths ---------------------------------------------------------------------------------- *)
+Lemma nth_set_nth_eq a : forall i t, nth i (set_nth a i t) TX = t.
+Proof.
+  induction a as [|h r IH]; intros i t.
+  - induction i; simpl; auto.
+  - destruct i; simpl; auto.
+Qed.
+Lemma nth_set_nth_neq a : forall i j t, i <> j -> nth j (set_nth a i t) TX = nth j a TX.
+Proof.
+  induction a as [|h r IH]; intros i j t N.
+  - revert j N. induction i; intros j N; destruct j; simpl; auto; try lia.
+    + destruct j; auto.
+    + rewrite IHi by lia. destruct j; auto.
+  - destruct i, j; simpl; auto; try lia.
+Qed.
+Lemma paths_rec_sound d : forall a n, ordered d -> top_lt d n ->
+  forall p v, In (p, v) (paths_rec V a d) ->
+  (forall x, n <= x -> nth x p TX = nth x a TX) /\
+  (forall s, (forall x, x < n -> (nth x p TX = T1 -> s x = true) /\ (nth x p TX = T0 -> s x = false)) -> ev d s = v).
+Proof.
+  induction d as [u|x lo IHlo hi IHhi]; simpl; intros a n O T p v H.
+  - destruct H as [[= <- <-]|[]]. auto.
+  - destruct O as [Tl [Th [Ol Oh]]]. apply in_app_or in H as [H|H].
+    + destruct (IHlo _ x Ol Tl p v H) as [A B]. split.
+      * intros y Hy. rewrite A by lia. apply nth_set_nth_neq. lia.
+      * intros s Hs. assert (E : nth x p TX = T0) by (rewrite A by lia; apply nth_set_nth_eq).
+        rewrite (proj2 (Hs x T) E). apply B. intros y Hy. apply Hs. lia.
+    + destruct (IHhi _ x Oh Th p v H) as [A B]. split.
+      * intros y Hy. rewrite A by lia. apply nth_set_nth_neq. lia.
+      * intros s Hs. assert (E : nth x p TX = T1) by (rewrite A by lia; apply nth_set_nth_eq).
+        rewrite (proj1 (Hs x T) E). apply B. intros y Hy. apply Hs. lia.
+Qed.
+(* every path listed by GetPaths carries the value of every total assignment it covers *)
+Theorem paths_sound d : ordered d -> forall p v, In (p, v) (paths V d) -> forall s, refines p s -> ev d s = v.
+Proof.
+  intros O p v H s R. unfold paths in H.
+  assert (T : top_lt d (S (match d with Leaf _ => 0 | Nd x _ _ => x end))) by (destruct d; simpl; auto).
+  destruct (paths_rec_sound d [] _ O T p v H) as [_ B]. apply B. intros x _. apply R.
+Qed.
+
 End DDP.
 
 (* a diagram over two variables, built and combined as the package does *)
